@@ -31,6 +31,30 @@ def build(log):
         return p.returncode == 0, (p.stdout + p.stderr)[-3000:]
 
 
+def strip_coq_comments(text):
+    """Blank out (possibly nested, possibly multi-line) Coq comments, keeping the line structure; string
+    literals are left alone (a "(*" inside a string does not open a comment)."""
+    out, depth, i, n, in_str = [], 0, 0, len(text), False
+    while i < n:
+        ch = text[i]
+        if depth == 0 and ch == '"':
+            in_str = not in_str
+            out.append(ch)
+            i += 1
+        elif not in_str and text.startswith("(*", i):
+            depth += 1
+            out.append("  ")
+            i += 2
+        elif not in_str and depth > 0 and text.startswith("*)", i):
+            depth -= 1
+            out.append("  ")
+            i += 2
+        else:
+            out.append(ch if depth == 0 or ch == "\n" else " ")
+            i += 1
+    return "".join(out)
+
+
 def scan_forbidden():
     """grep the development for declarations that would add to the trusted base."""
     hits = []
@@ -44,8 +68,8 @@ def scan_forbidden():
             if rel not in listed and not rel.startswith(("Extract", "Generated")):
                 continue            # not part of the development (work in progress, never built)
             in_section = 0
-            for i, line in enumerate(open(path, encoding="utf8"), 1):
-                code = re.sub(r"\(\*.*?\*\)", "", line)
+            for i, code in enumerate(strip_coq_comments(open(path, encoding="utf8").read()).split("\n"), 1):
+                line = code
                 if re.match(r"\s*Section\b", code):
                     in_section += 1
                 if re.match(r"\s*End\b", code) and in_section:
